@@ -14,6 +14,12 @@ Core Lean only.
 -/
 namespace PebblesVerif
 
+/-- `common.IsBuiltinName`: `strings.HasPrefix(s, "__")` -/
+def isBuiltinName (s : String) : Bool :=
+  match s.toList with
+  | '_' :: '_' :: _ => true
+  | _ => false
+
 inductive IVal where
   | lit (j : J)
   | var (name : String) (dflt : Option J)
